@@ -42,6 +42,11 @@ def alias_defs(fn):
     return out
 
 
+def mentions_term(t, sub):
+    from ..flow import mentions
+    return mentions(t, sub)
+
+
 def resolve(t, defs):
     for _ in range(6):
         n = substitute(t, defs)
